@@ -34,7 +34,8 @@ BUDGET = {
 HASH_KEYS_INFO = [b"pieces", b"files", b"file tree", b"piece length", b"name", b"length", b"meta version"]
 
 EXTRA_TOP = {
-    "created by": b"someone", "creation date": 1234567890, "encoding": b"UTF-8", "x-bin": b"\xff\xfe\x00",
+    "a-note": b"info", "created by": b"info",   # the bytes '4:info' occur before the real info key
+    "created  by": b"someone", "creation date": 1234567890, "encoding": b"UTF-8", "x-bin": b"\xff\xfe\x00",
     "nodes": [[b"host", 6881]], "zz": {b"b": 1, b"a": []}, "azureus_properties": {b"dht_backup_enable": 1},
 }
 EXTRA_INFO = {"x_cross_seed": b"abc", "unknown-int": -7, "bin": b"\x80\x81", "entropy": [1, [b"x"]], "ssl-cert": b""}
@@ -56,6 +57,7 @@ def source_strategy(cli_safe_opts=True):
         "top": st.lists(st.sampled_from(sorted(EXTRA_TOP)), unique=True, max_size=4),
         "info": st.lists(st.sampled_from(sorted(EXTRA_INFO)), unique=True, max_size=3),
         "announce": st.one_of(st.none(), edits.url_list()),
+        "more_tiers": st.lists(edits.url_list(), max_size=2),
         "url_list": st.one_of(st.none(), edits.url_list()),
         "private": st.booleans(),
         "comment": st.one_of(st.none(), edits.text()),
@@ -84,7 +86,8 @@ def build_source(scr, case):
         top = {k: EXTRA_TOP[k] for k in src["top"]}
         if src["announce"]:
             top["announce"] = src["announce"][0].encode()
-            top["announce-list"] = [[u.encode() for u in src["announce"]]]
+            top["announce-list"] = [[u.encode() for u in src["announce"]]] + [
+                [u.encode() for u in tier] for tier in src.get("more_tiers", [])]
         if src["url_list"]:
             top["url-list"] = [u.encode() for u in src["url_list"]]
         info_extra = {k: EXTRA_INFO[k] for k in src["info"]}
